@@ -4,6 +4,8 @@
 //   st new ctx=cancel|bg|race   (race: the context is cancelled while a waiter is between its context check and
 //                                cond.Wait — the first live ctx.Err() cancels, then dawdles before answering "not done")
 //   st call t=<tid> c=send:<m>|recv|header|closesend ok=0|1
+//   st call2 a=send:<m> b=send:<m>|closesend   the creation of the underlying stream (if A gets there) is held up until the
+//                                second caller B has arrived as well; then both finish (threads 0 and 3; sends= is sorted)
 //   st cancel | st trailer | st context | st unary
 //   => rets=<tid>:<ret>,... blocked=<tid>,... created=<n> attempts=<m|->,... sends=<m>,... recv=<n> header=<n> closesend=<n>
 // ret: sent|recvd|header|closed (reached the underlying stream) | createerr | ctxerr | trailernil | trailerstream | ctxown | ctxstream
@@ -104,11 +106,21 @@ type stHarness struct {
 	pending  []*stPending
 	mu       sync.Mutex
 	race     *stRaceCtx
+	gate     chan struct{} // call2: the streamer waits here
+	entered  chan struct{}
+	sortSend bool
 }
 
 type stMarker struct{}
 
 func (h *stHarness) streamer(ctx context.Context, desc *grpc.StreamDesc, cc *grpc.ClientConn, method string, opts ...grpc.CallOption) (grpc.ClientStream, error) {
+	h.mu.Lock()
+	g, e := h.gate, h.entered
+	h.mu.Unlock()
+	if g != nil {
+		e <- struct{}{}
+		<-g
+	}
 	h.mu.Lock()
 	defer h.mu.Unlock()
 	a := "?"
@@ -179,7 +191,11 @@ func (h *stHarness) summary(rets []string) string {
 	sends, recv, header, cs := []string{}, 0, 0, 0
 	if h.fake != nil {
 		h.fake.mu.Lock()
-		for _, m := range h.fake.sends {
+		ms := append([]int{}, h.fake.sends...)
+		if h.sortSend {
+			sort.Ints(ms)
+		}
+		for _, m := range ms {
 			sends = append(sends, strconv.Itoa(m))
 		}
 		recv, header, cs = h.fake.recv, h.fake.header, h.fake.closesend
@@ -264,6 +280,54 @@ func (h *stHarness) exec(line string) string {
 		}
 		h.pending = append(h.pending, p)
 		return h.summary(h.collect())
+	case "call2":
+		if h.cs == nil {
+			return "bad-op"
+		}
+		run := func(c string) chan string {
+			ch := make(chan string, 1)
+			go func() {
+				ch <- guardRet(func() string {
+					if strings.HasPrefix(c, "send:") {
+						m, _ := strconv.Atoi(c[5:])
+						return h.classify("send", h.cs.SendMsg(&m))
+					}
+					return h.classify("closesend", h.cs.CloseSend())
+				})
+			}()
+			return ch
+		}
+		gate := make(chan struct{})
+		h.mu.Lock()
+		h.nextOK, h.gate, h.entered = true, gate, make(chan struct{}, 8)
+		h.mu.Unlock()
+		chA := run(a["a"])
+		resA, resB := "", ""
+		select {
+		case <-h.entered: // A is creating the stream
+		case resA = <-chA: // A did not have to
+		case <-time.After(time.Second):
+		}
+		chB := run(a["b"])
+		time.Sleep(15 * time.Millisecond)
+		h.mu.Lock()
+		h.gate = nil
+		h.mu.Unlock()
+		close(gate)
+		for resA == "" || resB == "" {
+			select {
+			case r := <-chA:
+				resA = r
+			case r := <-chB:
+				resB = r
+			case <-time.After(3 * time.Second):
+				return "HANG"
+			}
+		}
+		h.sortSend = true
+		out := h.summary(append(h.collect(), "0:"+resA, "3:"+resB))
+		h.sortSend = false
+		return out
 	case "cancel":
 		if h.cancel != nil {
 			h.cancel()
@@ -378,6 +442,15 @@ func TestVerifStream(t *testing.T) {
 				if !still {
 					delete(busy, tid)
 				}
+			}
+			if rng.Intn(12) == 0 && !busy[3] && !busy[0] {
+				msg += 2
+				b := fmt.Sprintf("send:%d", msg)
+				if rng.Intn(2) == 0 {
+					b = "closesend"
+				}
+				emit(fmt.Sprintf("st call2 a=send:%d b=%s", msg-1, b))
+				continue
 			}
 			switch k := rng.Intn(10); {
 			case k < 3:
